@@ -228,7 +228,7 @@ Lemma parse_epoch2_kv sys2 prn y mo d h mi s b dr rt YY Y MO D H MI S cl :
 Proof.
   intros He Hyy Hy Hmo Hd Hh Hmi Hs Hcl.
   unfold parse_epoch2, epoch_fields, clock_floats. cbn [alookup String.eqb Ascii.eqb Bool.eqb bind].
-  rewrite He. cbn [bind]. rewrite Hyy. cbn [bind]. rewrite Hy. cbn [bind]. rewrite Hmo. cbn [bind]. rewrite Hd. cbn [bind].
+  rewrite He. cbn [bind]. unfold year_v2. rewrite Hyy. cbn [bind]. rewrite Hy. cbn [bind]. rewrite Hmo. cbn [bind]. rewrite Hd. cbn [bind].
   rewrite Hh. cbn [bind]. rewrite Hmi. cbn [bind]. rewrite Hs. cbn [bind negb q_lower_d spec_q]. rewrite Hcl.
   reflexivity.
 Qed.
